@@ -70,7 +70,7 @@ def oracle_untie(r, o):
 def gen_cmp(rng):
     n = rng.randint(2, 7)
     k = rng.randint(2, 5)
-    alts = gen.labels(rng, n, gen.LABEL_POOL_A, "A")
+    alts = gen.labels(rng, n, gen.LABEL_POOL_A, "A", kinds=False)
     ranks = []
     for t in range(k):
         order = list(alts)
